@@ -25,7 +25,7 @@ RULE = ('(a) base samples {gauss1,gauss2,bezier2,uniform2} on mesh.line(2)@X, me
         'spaces)/addself, take_elements(every ordered selection without repetition of <=3 of the <=4 probe elements first/second/middle/last), '
         'subset(<=5 masks), zip(located sample in a free space, either side), custom index (4 permutations), rename_spaces(fresh/free/swap). '
         'FULL = that alphabet, CORE = 1-2 representatives per operation kind. quick: all sequences FULL (depth 1) and CORE.CORE from all 16 bases, CORE.CORE.CORE '
-        'from 8 bases (one per mesh / points-per-element / kind of base sample); thorough: FULL.FULL and CORE.CORE.CORE from all 16 bases, FULL.CORE.CORE from the 8. '
+        'from 6 bases (each mesh, a located sample, both trimmed samples); thorough: FULL.FULL and CORE.CORE.CORE from all 16 bases, FULL.CORE.CORE from 4 (Xg2,Yg1,Zu2,Ytrim). '
         'States are deduplicated on the (interned) sample object + model. '
         'non-trivial/distinct = distinct (model, nested sample type) reached by >=1 operation. '
         '(b) references {point,line,triangle,tetrahedron,line^2,line^3,triangle*line,line*triangle, WithChildren(every full/empty child mask of line/square/triangle '
@@ -42,14 +42,16 @@ ASSUMPTIONS = ['geometries are affine per element; integrands are the polynomial
 BUDGET_S = {'quick': 600, 'thorough': 3600}
 
 
-DEEP_BASES = ['Xg2', 'Yg1', 'Zu2', 'Yb2', 'Xloc', 'Zloc', 'Xtrim', 'Ytrim']   # one per (mesh, points per element, kind of base sample)
+DEEP_BASES = ['Xg2', 'Yg1', 'Zu2', 'Xloc', 'Xtrim', 'Ytrim']   # every mesh, a located sample, both kinds of trimmed element
+
+FCC_BASES = ['Xg2', 'Yg1', 'Zu2', 'Ytrim']
 
 
 def schedules(tier, bname):
     deep = bname in DEEP_BASES
     if tier == 'quick':
         return [['full'], ['core', 'core', 'core'] if deep else ['core', 'core']]
-    return [['full', 'full'], ['core', 'core', 'core']] + ([['full', 'core', 'core']] if deep else [])
+    return [['full', 'full'], ['core', 'core', 'core']] + ([['full', 'core', 'core']] if bname in FCC_BASES else [])
 
 
 def lmax(tier):
@@ -95,7 +97,7 @@ def run_a(spec, tier, res):
         return
     res.count('states')
     levels = spec['levels']
-    seen = {smp: mod.key()}
+    seen = {smp: (mod.key(), {tuple(levels)})}
     first = E.menu(mod, smp, levels[0])[spec['slice']::spec['of']]
     E.explore(bname, smp, mod, [], levels, res, seen, first=first)
 
